@@ -42,6 +42,7 @@ PROPS["C07"] = {
     "assumptions": [
         "Column::is_valid_value is proved against valid_spec with Category::validate IMPORTED as r == cat_ok(category, string); that contract is proved in group category, where cat_ok is the documented grammar of each category",
         "group category: the real Category::validate is proved to answer, for EVERY string and without panicking (incl. the byte slice in the GUID arm), exactly the documented grammar: identifier, property (at most one leading '%'), upper/lower case, GUID (38 bytes, braces, no lower-case letter, the inside a UUID), version (at most four '.'-separated pieces, each a 16-bit number), language list (','-separated 16-bit numbers), cabinet ('#' + identifier, or 1..8 bytes then optionally the LAST '.' and at most 3 bytes), 16/32-bit integer text. TRUSTED: the std string calls are shims whose body is the original call and whose contract is stated in prelude/catshim.rs (chars().any, starts_with/contains with a closure or a char, strip_prefix, split -- a model of core::str::Split --, rsplitn(2,..).collect, split_once/rsplit_once, str slicing with its character-boundary precondition, Vec::reverse, len); std's integer parsers (parse::<i16|i32|u16>) and the uuid crate's parser are uninterpreted total predicates of the text, so WHICH digit strings are numbers is std's answer, not checked here; closures carry the contract 'result == own body' (rule X13)",
+        "group execgate: the validation prefix of the real Insert::exec (up to, excluding, `let stream_name = table.stream_name();`) and of the real Update::exec (up to, excluding, `if let Some(ref expr) = self.condition {`); everything after the cut is an UNCONSTRAINED continuation (rule X14). Proved: an unknown table, a row with the wrong number of values, an unknown column, or ANY value with !valid_spec(column, value) is refused with an error before the container and the string pool are touched (both unchanged); and a statement whose every value is valid passes the validation (its result is the continuation's: duplicate keys, the row limit and I/O are decided there and are NOT covered). Column::is_valid_value is imported (r == valid_spec, proved in group column); Table::has_column / get_column are imported as a function col_index(table, name) (index_for_column_name is proved in group expr); tables.get(&name) is a shim (vstd has no ordering model for String keys)",
         "NOT covered: 'the values the library itself builds from a UUID or a non-empty language list are valid for the GUID and language categories' (needs the uuid crate's formatter)",
     ],
 }
@@ -185,6 +186,7 @@ PROPS["C10"]["verus"]["readers"] = ["vx_read_whole", "SummaryInfo::read", "Prope
                                     "lemma_pv_pair", "lemma_pv_pair_small", "lemma_pv_pair_i1", "lemma_pv_pair_i2", "lemma_pv_pair_str", "lemma_lpstr_layout", "lemma_pv_pair_time", "lemma_le32_rt", "lemma_le16_rt", "lemma_u64_halves", "lemma_i16_rt", "lemma_i32_rt", "lemma_i8_rt"]
 PROPS["C19"]["verus"]["queryfmt"] = ["Delete::fmt", "Insert::fmt", "Update::fmt", "Join::fmt", "Select::format_for_join", "Select::fmt"]
 PROPS["C06"]["verus"]["mktable"] = ["Package::create_table_with_name", "Column::is_storable"]
+PROPS["C07"]["verus"]["execgate"] = ["Insert::exec", "Update::exec", "Table::columns"]
 PROPS["C07"]["verus"]["category"] = ["Category::validate", "lemma_blen_nonneg", "lemma_blen_empty", "lemma_blen_ends", "lemma_last_of"]
 PROPS["C10"]["verus"]["propset"] = SUMMARY_FNS + ["lemma_in_step_set_codepage", "lemma_in_step_insert", "lemma_in_step_remove",
                                               "PropertySet::new", "SummaryInfo::new", "SummaryInfo::uuid", "SummaryInfo::set_uuid", "SummaryInfo::clear_uuid", "lemma_uuid_after_set"]
